@@ -201,7 +201,9 @@ func (s *sender) recvAck(ackNo uint32) (uint32, error) {
 		windowOpen = true
 	}
 
-	for s.ackNo < newAckNo {
+	// An acknowledgement can name frames that are not in the retransmission
+	// buffer (a stale or hostile frame); only frames that exist can be acked.
+	for s.ackNo < newAckNo && len(s.frames) > 0 {
 		s.onSuccess(ackNo)
 		s.ackNo++
 		s.frames = s.frames[1:]
